@@ -82,6 +82,128 @@ fn strat(t: Tier) -> proptest::strategy::BoxedStrategy<ValidCase> {
     }
 }
 
+// ---- long histories and large files (positions beyond 2^16 samples, 2^24 and 2^31 bytes)
+
+#[derive(Clone, Debug, serde::Serialize, serde::Deserialize, PartialEq, Eq, Hash)]
+pub struct BigCase {
+    pub codec: u8,
+    pub audio: u8,
+    pub fast_start: bool,
+    pub frames: u32,
+    pub frame_bytes: u32,
+    pub audio_frames: u32,
+}
+
+pub fn eval_big(c: &BigCase) -> Outcome {
+    use crate::exec::{CCfg, COp, FinishKind};
+    use crate::gen::*;
+    let mut o = Outcome::default();
+    let codec = 2 + c.codec % 2; // AV1 / VP9: stored unchanged, so huge frames need no expected-copy conversion
+    let mut cfg = CCfg::basic(codec);
+    cfg.audio = if c.audio_frames > 0 { 7 } else { 0 };
+    cfg.fast_start = Some(c.fast_start);
+    let mut ops = Vec::new();
+    let mut vexp: Vec<ExpSample> = Vec::new();
+    let mut aexp: Vec<ExpSample> = Vec::new();
+    for i in 0..c.frames {
+        let body = filler(c.frame_bytes.max(4) as usize, (7u64 << 60) | i as u64, 0);
+        let data = if codec == 2 {
+            let mut v = Vec::new();
+            if i == 0 {
+                v.extend_from_slice(&obu(1, false, 0, true, 0, &Av1Seq::simple().payload()));
+            }
+            let mut b = body;
+            b[0] &= 0x1f;
+            v.extend_from_slice(&obu(6, false, 0, true, 0, &b));
+            v
+        } else if i == 0 {
+            Vp9Key { profile: 0, byte4: 0, sync: 0, width: 320, height: 240, wlen: 2, hlen: 2, render: None, color: Some((0, None)), tail: 0 }.build(1).0.into_iter().chain(body).collect()
+        } else {
+            let mut v = vec![0x49, 0x83, 0x42, 0x10];
+            v.extend_from_slice(&body);
+            v
+        };
+        let t = i as u64 * 3000;
+        vexp.push(ExpSample { bytes: data.clone(), key: i % 50 == 0, pts: t, dts: t, tie: false, op: ops.len(), pts_secs: 0.0, dts_secs: 0.0 });
+        ops.push(COp::Video { pts: t as f64 / 90000.0, data, key: i % 50 == 0 });
+        // interleave audio in submission order
+        if (i as u64) < c.audio_frames as u64 {
+            let p = OpusGene { config: 4, stereo: false, code: 0, count_byte: 0, len: 40 + (i % 7) as u16, corrupt: 0 }.build((9u64 << 60) | i as u64).0;
+            aexp.push(ExpSample { bytes: p.clone(), key: true, pts: t, dts: t, tie: false, op: ops.len(), pts_secs: 0.0, dts_secs: 0.0 });
+            ops.push(COp::Audio { pts: t as f64 / 90000.0, data: p });
+        }
+    }
+    ops.push(COp::Finish(FinishKind::InPlaceStats));
+    let run = run_history(&cfg, &ops);
+    if let Some(p) = &run.panic {
+        o.aborted_by_panic = Some(p.clone());
+        return o;
+    }
+    let total: u64 = vexp.iter().chain(aexp.iter()).map(|s| s.bytes.len() as u64).sum();
+    if run.finished_at.is_none() {
+        if total + 8 <= u32::MAX as u64 - 1_000_000 {
+            o.fail("finish", "finish.large_file_rejected", format!("finish failed for {} bytes of media data (fits 32-bit sizes): {:?}", total, run.results.last().map(|r| r.short())));
+        }
+        return o;
+    }
+    let all_ok = run.results.iter().all(|r| r.is_ok());
+    if !all_ok {
+        o.class("some_call_rejected");
+        return o;
+    }
+    let v: Vec<&ExpSample> = vexp.iter().collect();
+    let a: Vec<&ExpSample> = aexp.iter().collect();
+    match parse(&run.out) {
+        Err(e) => o.fail("parse", "parse.large", format!("output does not parse: {}", e)),
+        Ok(p) => check_samples(&mut o, &run.out, &p, &v, &a, &cfg, ":large"),
+    }
+    o.nontrivial = true;
+    if total >= 1 << 24 {
+        o.class("file_beyond_2^24_bytes");
+    }
+    if total >= 1 << 31 {
+        o.class("file_beyond_2^31_bytes");
+    }
+    if c.frames > 65535 {
+        o.class("more_than_65535_samples");
+    }
+    o
+}
+
+fn run_big(ctx: &Ctx) -> SubReport {
+    let thorough = ctx.tier == Tier::Thorough;
+    let mk = move |shard: usize, shards: usize| {
+        let mut v = vec![
+            // > 65 535 samples per track, both layouts, with and without audio
+            BigCase { codec: 0, audio: 0, fast_start: true, frames: 70_000, frame_bytes: 5, audio_frames: 0 },
+            BigCase { codec: 1, audio: 1, fast_start: false, frames: 66_000, frame_bytes: 9, audio_frames: 66_000 },
+            BigCase { codec: 0, audio: 1, fast_start: true, frames: 65_536, frame_bytes: 4, audio_frames: 65_537 },
+            // offsets beyond 2^24
+            BigCase { codec: 1, audio: 1, fast_start: true, frames: 300, frame_bytes: 60_000, audio_frames: 300 },
+            BigCase { codec: 0, audio: 0, fast_start: false, frames: 9, frame_bytes: 2_000_000, audio_frames: 0 },
+            BigCase { codec: 0, audio: 1, fast_start: false, frames: 40, frame_bytes: 500_000, audio_frames: 40 },
+        ];
+        if thorough {
+            // offsets beyond 2^31 (still below the 2^32 box-size limit)
+            v.push(BigCase { codec: 1, audio: 0, fast_start: true, frames: 33, frame_bytes: 67_000_000, audio_frames: 0 });
+            v.push(BigCase { codec: 0, audio: 1, fast_start: true, frames: 34, frame_bytes: 66_000_000, audio_frames: 34 });
+            v.push(BigCase { codec: 1, audio: 1, fast_start: false, frames: 36, frame_bytes: 64_000_000, audio_frames: 20 });
+        }
+        // big cases are memory hungry: run them on at most 3 shards
+        let lanes = shards.min(if thorough { 2 } else { 3 });
+        v.into_iter().enumerate().filter(move |(i, _)| shard < lanes && i % lanes == shard).map(|(_, c)| c)
+    };
+    let mut r = run_enumerated(ctx, "long_and_large", &mk, &eval_big);
+    r.exhaustive = false;
+    r.notes.push("fixed list: > 65 535 samples per track; sample positions beyond 2^24 bytes (quick) and beyond 2^31 bytes (thorough only); the 2^32 limit is not explored".into());
+    r
+}
+
+fn replay_big(v: &serde_json::Value) -> Result<Outcome, String> {
+    let c: BigCase = serde_json::from_value(v.clone()).map_err(|e| e.to_string())?;
+    Ok(eval_big(&c))
+}
+
 pub fn def() -> PropertyDef {
     PropertyDef {
         fuzz_targets: &[],
@@ -94,6 +216,9 @@ pub fn def() -> PropertyDef {
             "the harness's ISO-BMFF reader (src/reader.rs) implements stsc/stco/co64/stsz/stz2/stss resolution correctly",
             "expected MP4 framing is built from the generator's NAL/OBU lists, never by re-parsing",
         ],
-        subs: vec![Box::new(PSub { name: "resolve", quick: 30000, thorough: 1000000, strat, eval })],
+        subs: vec![
+            Box::new(PSub { name: "resolve", quick: 30000, thorough: 1000000, strat, eval }),
+            Box::new(ESub { name: "long_and_large", run: run_big, replay: replay_big }),
+        ],
     }
 }
